@@ -546,6 +546,152 @@ fn c10_a_message_braces() {
     kani::cover!(a < 0);
 }}
 
+// ---- systematic table over the valueset!/fieldset! arms:
+//      name form {ident, dotted, literal, const} x sigil {none, %, ?} x position {first of two, last (no trailing comma)},
+//      plus the shorthand arms {x, %x, ?x} x position. One invocation, two fields per harness.
+
+/// marker with fixed, distinct texts: Display writes "D", Debug writes "G"
+struct Dg;
+impl fmt::Display for Dg {
+    fn fmt(&self, f: &mut fmt::Formatter<'_>) -> fmt::Result { f.write_str("D") }
+}
+impl fmt::Debug for Dg {
+    fn fmt(&self, f: &mut fmt::Formatter<'_>) -> fmt::Result { f.write_str("G") }
+}
+const KC: &str = "kc";
+
+macro_rules! arm {
+    // plain value under the name form: typed method + value
+    ($name:ident, none, first, $fname:expr, [$($lhs:tt)*]) => {
+        hx! { fn $name() {
+            let v: u8 = kani::any();
+            let w: i8 = kani::any();
+            let emit = || tracing::event!(Level::INFO, $($lhs)* v, z = w);
+            twice!(emit());
+            assert!(events() == 1);
+            expect!(ent(EV, 0, $fname, M_U64, v as u128, 0), ent(EV, 1, "z", M_I64, w as i128 as u128, 0));
+            kani::cover!(v == 255 && w < 0);
+        }}
+    };
+    ($name:ident, none, last, $fname:expr, [$($lhs:tt)*]) => {
+        hx! { fn $name() {
+            let v: u8 = kani::any();
+            let w: i8 = kani::any();
+            let emit = || tracing::event!(Level::INFO, a = w, $($lhs)* v);
+            twice!(emit());
+            assert!(events() == 1);
+            expect!(ent(EV, 0, "a", M_I64, w as i128 as u128, 0), ent(EV, 1, $fname, M_U64, v as u128, 0));
+            kani::cover!(v == 255 && w < 0);
+        }}
+    };
+    // `%`: record_debug with the Display text; `?`: record_debug with the Debug text
+    ($name:ident, disp, first, $fname:expr, [$($lhs:tt)*]) => { arm!(@sig_first $name, $fname, b"D", [$($lhs)* %]); };
+    ($name:ident, dbg, first, $fname:expr, [$($lhs:tt)*]) => { arm!(@sig_first $name, $fname, b"G", [$($lhs)* ?]); };
+    ($name:ident, disp, last, $fname:expr, [$($lhs:tt)*]) => { arm!(@sig_last $name, $fname, b"D", [$($lhs)* %]); };
+    ($name:ident, dbg, last, $fname:expr, [$($lhs:tt)*]) => { arm!(@sig_last $name, $fname, b"G", [$($lhs)* ?]); };
+    (@sig_first $name:ident, $fname:expr, $text:expr, [$($lhs:tt)*]) => {
+        ht! { fn $name() {
+            let m = Dg;
+            let w: i8 = kani::any();
+            let emit = || tracing::event!(Level::INFO, $($lhs)* m, z = w);
+            twice!(emit());
+            assert!(events() == 1);
+            expect!(dbg(EV, 0, $fname, $text), ent(EV, 1, "z", M_I64, w as i128 as u128, 0));
+            kani::cover!(w < 0);
+        }}
+    };
+    (@sig_last $name:ident, $fname:expr, $text:expr, [$($lhs:tt)*]) => {
+        ht! { fn $name() {
+            let m = Dg;
+            let w: i8 = kani::any();
+            let emit = || tracing::event!(Level::INFO, a = w, $($lhs)* m);
+            twice!(emit());
+            assert!(events() == 1);
+            expect!(ent(EV, 0, "a", M_I64, w as i128 as u128, 0), dbg(EV, 1, $fname, $text));
+            kani::cover!(w < 0);
+        }}
+    };
+}
+
+arm!(c10_arm_ident_none_first, none, first, "f", [f =]);
+arm!(c10_arm_ident_none_last, none, last, "f", [f =]);
+arm!(c10_arm_ident_disp_first, disp, first, "f", [f =]);
+arm!(c10_arm_ident_disp_last, disp, last, "f", [f =]);
+arm!(c10_arm_ident_dbg_first, dbg, first, "f", [f =]);
+arm!(c10_arm_ident_dbg_last, dbg, last, "f", [f =]);
+arm!(c10_arm_dotted_none_first, none, first, "f.g", [f.g =]);
+arm!(c10_arm_dotted_none_last, none, last, "f.g", [f.g =]);
+arm!(c10_arm_dotted_disp_first, disp, first, "f.g", [f.g =]);
+arm!(c10_arm_dotted_disp_last, disp, last, "f.g", [f.g =]);
+arm!(c10_arm_dotted_dbg_first, dbg, first, "f.g", [f.g =]);
+arm!(c10_arm_dotted_dbg_last, dbg, last, "f.g", [f.g =]);
+arm!(c10_arm_literal_none_first, none, first, "f g", ["f g" =]);
+arm!(c10_arm_literal_none_last, none, last, "f g", ["f g" =]);
+arm!(c10_arm_literal_disp_first, disp, first, "f g", ["f g" =]);
+arm!(c10_arm_literal_disp_last, disp, last, "f g", ["f g" =]);
+arm!(c10_arm_literal_dbg_first, dbg, first, "f g", ["f g" =]);
+arm!(c10_arm_literal_dbg_last, dbg, last, "f g", ["f g" =]);
+arm!(c10_arm_const_none_first, none, first, "kc", [{ KC } =]);
+arm!(c10_arm_const_none_last, none, last, "kc", [{ KC } =]);
+arm!(c10_arm_const_disp_first, disp, first, "kc", [{ KC } =]);
+arm!(c10_arm_const_disp_last, disp, last, "kc", [{ KC } =]);
+arm!(c10_arm_const_dbg_first, dbg, first, "kc", [{ KC } =]);
+arm!(c10_arm_const_dbg_last, dbg, last, "kc", [{ KC } =]);
+
+// shorthand arms: the identifier is both the name and the value
+macro_rules! arm_short {
+    ($name:ident, $x:ident, none, first) => {
+        hx! { fn $name() {
+            let $x: u8 = kani::any();
+            let w: i8 = kani::any();
+            let emit = || tracing::event!(Level::INFO, $x, z = w);
+            twice!(emit());
+            assert!(events() == 1);
+            expect!(ent(EV, 0, stringify!($x), M_U64, $x as u128, 0), ent(EV, 1, "z", M_I64, w as i128 as u128, 0));
+            kani::cover!($x == 255 && w < 0);
+        }}
+    };
+    ($name:ident, $x:ident, none, last) => {
+        hx! { fn $name() {
+            let $x: u8 = kani::any();
+            let w: i8 = kani::any();
+            let emit = || tracing::event!(Level::INFO, a = w, $x);
+            twice!(emit());
+            assert!(events() == 1);
+            expect!(ent(EV, 0, "a", M_I64, w as i128 as u128, 0), ent(EV, 1, stringify!($x), M_U64, $x as u128, 0));
+            kani::cover!($x == 255 && w < 0);
+        }}
+    };
+    ($name:ident, $x:ident, $text:expr, first, [$($sig:tt)*]) => {
+        ht! { fn $name() {
+            let $x = Dg;
+            let w: i8 = kani::any();
+            let emit = || tracing::event!(Level::INFO, $($sig)* $x, z = w);
+            twice!(emit());
+            assert!(events() == 1);
+            expect!(dbg(EV, 0, stringify!($x), $text), ent(EV, 1, "z", M_I64, w as i128 as u128, 0));
+            kani::cover!(w < 0);
+        }}
+    };
+    ($name:ident, $x:ident, $text:expr, last, [$($sig:tt)*]) => {
+        ht! { fn $name() {
+            let $x = Dg;
+            let w: i8 = kani::any();
+            let emit = || tracing::event!(Level::INFO, a = w, $($sig)* $x);
+            twice!(emit());
+            assert!(events() == 1);
+            expect!(ent(EV, 0, "a", M_I64, w as i128 as u128, 0), dbg(EV, 1, stringify!($x), $text));
+            kani::cover!(w < 0);
+        }}
+    };
+}
+arm_short!(c10_arm_short_none_first, f, none, first);
+arm_short!(c10_arm_short_none_last, f, none, last);
+arm_short!(c10_arm_short_disp_first, f, b"D", first, [%]);
+arm_short!(c10_arm_short_disp_last, f, b"D", last, [%]);
+arm_short!(c10_arm_short_dbg_first, f, b"G", first, [?]);
+arm_short!(c10_arm_short_dbg_last, f, b"G", last, [?]);
+
 // ---- event! prefix arms
 
 macro_rules! ev_prefix {
@@ -930,11 +1076,26 @@ fn havoc() -> (u8, u8, bool, dispatch::DefaultGuard) {
 
 macro_rules! lazy_harness {
     ($(#[$doc:meta])* $name:ident, $rank:expr, $is_span:expr, |$x:ident, $mk:ident| $emit:expr) => {
+        lazy_harness!(@body [$(#[$doc])*] $name, $rank, $is_span, $x, $mk, {}, $emit);
+    };
+    // with a symbolic explicit parent `$p: Option<Id>` (None / Some(any non-zero id)) and a borrowed id `$q: &Id`
+    ($(#[$doc:meta])* $name:ident, $rank:expr, $is_span:expr, |$x:ident, $mk:ident, $p:ident, $q:ident| $emit:expr) => {
+        lazy_harness!(@body [$(#[$doc])*] $name, $rank, $is_span, $x, $mk, {
+            let ($p, _pk, _pid) = any_parent();
+            let __qid: u64 = kani::any();
+            kani::assume(__qid != 0);
+            let __q = tracing::span::Id::from_u64(__qid);
+            let $q = &__q;
+            let _ = (&$p, &$q);
+        }, $emit);
+    };
+    (@body [$(#[$doc:meta])*] $name:ident, $rank:expr, $is_span:expr, $x:ident, $mk:ident, { $($setup:tt)* }, $emit:expr) => {
         hx! {
         $(#[$doc])*
         fn $name() {
             let $x: u8 = kani::any();
             let $mk = any_mk();
+            $($setup)*
             let emit = || { let _r = $emit; core::mem::forget(_r); };
             first_hit_setup();
             emit();
@@ -990,6 +1151,23 @@ lazy_harness!(
     /// info_span! shorthand
     c10_b_info_span, 3, true,
     |x, mk| tracing::info_span!("sp", a = { tick(&N1); x }, b = %{ tick(&N2); mk }, c = ?{ tick(&N3); mk }));
+
+lazy_harness!(
+    /// span!(parent: p, ..) with a symbolic explicit parent (None / Some(id)): the arm that builds Span::child_of
+    c10_b_span_parent, 3, true,
+    |x, mk, p, q| tracing::span!(parent: p.clone(), Level::INFO, "sp", a = { tick(&N1); x }, b = %{ tick(&N2); mk }, c = ?{ tick(&N3); mk }));
+lazy_harness!(
+    /// span!(parent: &id, ..) with a borrowed symbolic id
+    c10_b_span_parent_ref, 1, true,
+    |x, mk, p, q| tracing::span!(parent: q, Level::ERROR, "sp", a = { tick(&N1); x }, b = %{ tick(&N2); mk }, c = ?{ tick(&N3); mk }));
+lazy_harness!(
+    /// info_span!(parent: p, ..) shorthand with a symbolic explicit parent
+    c10_b_info_span_parent, 3, true,
+    |x, mk, p, q| tracing::info_span!(parent: p.clone(), "sp", a = { tick(&N1); x }, b = %{ tick(&N2); mk }, c = ?{ tick(&N3); mk }));
+lazy_harness!(
+    /// debug_span!(target:, parent: &id, ..) shorthand
+    c10_b_debug_span_target_parent, 4, true,
+    |x, mk, p, q| tracing::debug_span!(target: "tg", parent: q, "sp", a = { tick(&N1); x }, b = %{ tick(&N2); mk }, c = ?{ tick(&N3); mk }));
 
 hx! {
 /// fresh process state (global max level OFF, nothing registered, no collector): nothing is evaluated by any macro
